@@ -85,7 +85,6 @@ def get_record(self: "ProvBundle", identifier: "Val") -> "Opt[Seq[ProvRecord]]":
     requires("namespaces", NSM_Inv(self._namespaces))
     requires("identifier-kinds", IdArgOK(identifier))
     modifies(self._namespaces, "<dict>", "_namespaces", "_uri_map", "_rename_map", "_prefix_renamed_map", "_default")
-    modifies(self._namespaces.parent, "<dict>", "_namespaces", "_uri_map", "_rename_map", "_prefix_renamed_map", "_default")
     ensures("none-for-none", implies(is_none(identifier), result is None))
     ensures("by-qualified-name", implies(is_qn(identifier), result is not None
                                          and same(the(result), recs_with_id(self._records, as_qn(identifier).uri))))
@@ -120,11 +119,10 @@ def new_record(self: "ProvBundle", record_type: "QN", identifier: "Val",
     allocates("ProvRecord")
     modifies(self, "_records", "_id_map")
     modifies(self._namespaces, "<dict>", "_namespaces", "_uri_map", "_rename_map", "_prefix_renamed_map", "_default")
-    modifies(self._namespaces.parent, "<dict>", "_namespaces", "_uri_map", "_rename_map", "_prefix_renamed_map", "_default")
     raises(ProvException)
     raises(ValueError)
     raises(TypeError)
-    ensures("fresh", not old(allocated(result)) and allocated(result))
+    ensures("fresh", fresh(result))
     ensures("appended", same(self._records, seq_concat(old(self._records), seq_unit(result))))
     ensures("kind", same(result._prov_type, some(table_key(PROV_REC_CLS, record_type))))
     ensures("belongs-here", result._bundle is not None and result._bundle == self)
@@ -204,11 +202,10 @@ def add_record(self: "ProvBundle", record: "ProvRecord") -> "ProvRecord":
     allocates("ProvRecord")
     modifies(self, "_records", "_id_map")
     modifies(self._namespaces, "<dict>", "_namespaces", "_uri_map", "_rename_map", "_prefix_renamed_map", "_default")
-    modifies(self._namespaces.parent, "<dict>", "_namespaces", "_uri_map", "_rename_map", "_prefix_renamed_map", "_default")
     raises(ProvException)
     raises(ValueError)
     raises(TypeError)
-    ensures("fresh", not old(allocated(result)) and allocated(result))
+    ensures("fresh", fresh(result))
     ensures("appended", same(self._records, seq_concat(old(self._records), seq_unit(result))))
     ensures("belongs-here", result._bundle is not None and result._bundle == self)
     # C09: the copy has the same type, the same identifier URI and the same set of (name URI, value) pairs
@@ -219,17 +216,21 @@ def add_record(self: "ProvBundle", record: "ProvRecord") -> "ProvRecord":
             forall(lambda u, c: implies(old(vs_has(qm_get(record._attributes, u), c)),
                                         exists_in(old(record.formal_attributes), lambda p: NormalPair(p) and not is_none(p[1]) and PairU(p) == u and same(PairC(p), c))
                                         or exists_in(old(record.extra_attributes), lambda p: NormalPair(p) and not is_none(p[1]) and PairU(p) == u and same(PairC(p), c))),
-                   "str", "Val"))
+                   "str", "Val"), internal=True)
     ensures("attributes-kept", forall(lambda u, c: implies(vs_has(qm_get(record._attributes, u), c),
                                                            vs_has(qm_get(result._attributes, u), c)), "str", "Val"),
             using=["every-stored-pair-is-passed-on", "source-unchanged-early"])
     ensures("formal-pairs-are-stored-pairs",
-            forall_in(old(record.formal_attributes), lambda p: implies(not is_none(p[1]), old(vs_has(qm_get(record._attributes, PairU(p)), PairC(p))))))
+            forall_in(old(record.formal_attributes), lambda p: implies(not is_none(p[1]), old(vs_has(qm_get(record._attributes, PairU(p)), PairC(p))))),
+            internal=True)
     ensures("extra-pairs-are-stored-pairs",
-            forall_in(old(record.extra_attributes), lambda p: old(vs_has(qm_get(record._attributes, PairU(p)), PairC(p)))))
+            forall_in(old(record.extra_attributes), lambda p: old(vs_has(qm_get(record._attributes, PairU(p)), PairC(p)))),
+            internal=True)
     ensures("attributes-not-invented", forall(lambda u, c: implies(vs_has(qm_get(result._attributes, u), c),
                                                                    vs_has(qm_get(record._attributes, u), c)), "str", "Val"),
             using=["formal-pairs-are-stored-pairs", "extra-pairs-are-stored-pairs", "source-unchanged-early"])
+    ensures("same-record-key", EqRecord(result, record),
+            using=["same-type", "same-identifier", "attributes-kept", "attributes-not-invented"])
     ensures("source-unchanged", same(record._attributes, old(record._attributes)) and same(record._identifier, old(record._identifier))
             and same(record._bundle, old(record._bundle)))
     ensures("nf", NF(result) and IdOK(result))
@@ -237,3 +238,166 @@ def add_record(self: "ProvBundle", record: "ProvRecord") -> "ProvRecord":
     ensures("existing-records-untouched", forall(lambda r: implies(old(allocated(r)), same(r._attributes, old(r._attributes))
                                                                    and same(r._identifier, old(r._identifier))
                                                                    and same(r._bundle, old(r._bundle))), "ProvRecord"))
+
+
+# ---------------------------------------------------------------------------------------------- containers
+@spec
+def SourcesOK(records: "Seq[ProvRecord]") -> "bool":
+    return forall_in(records, lambda r: SourceOK(r))
+
+
+@spec
+def CopiedUpTo(dst: "Seq[ProvRecord]", offset: "int", src: "Seq[ProvRecord]", upto: "int") -> "bool":
+    """dst[offset + j] is a content-equal copy of src[j] for j < upto (order preserved)"""
+    return forall(lambda j: implies(0 <= j and j < upto, EqRecord(seq_nth(dst, offset + j), seq_nth(src, j))), "int")
+
+
+@spec
+def Untouched(r: "ProvRecord") -> "bool":
+    return same(r._attributes, old(r._attributes)) and same(r._identifier, old(r._identifier)) and same(r._bundle, old(r._bundle))
+
+
+@spec
+def AllocatedUntouched() -> "bool":
+    return forall(lambda r: implies(old(allocated(r)), Untouched(r)), "ProvRecord")
+
+
+@contract("prov.model.ProvBundle.__init__", props=["C09", "C12", "C18"])
+def ProvBundle_init(self: "ProvBundle", records: "none" = None, identifier: "Opt[QN]" = None,
+                    namespaces: "Opt[Seq[Ns]]" = None, document: "Opt[ProvDocument]" = None) -> "none":
+    note("verified for records=None; with records the constructor runs the same loop as ProvBundle.update "
+         "(for record in records: self.add_record(record)), which is under contract there")
+    requires("identifier", identifier is None or QNameOK(identifier))
+    requires("namespaces", NamespacesArgOK(namespaces))
+    requires("document", document is None or (NSM_Local(document._namespaces) and document._namespaces.parent is None
+                                               and allocated(document._namespaces)))
+    requires("self-allocated", allocated(self))
+    requires("document-is-another-object", document is None or document != self)
+    allocates("NamespaceManager")
+    modifies(self, "_identifier", "_records", "_id_map", "_document", "_namespaces")
+    ensures("fields", same(self._identifier, identifier) and same(self._document, document))
+    ensures("own-fresh-manager", fresh(self._namespaces))
+    ensures("manager-parent", same(self._namespaces.parent, document._namespaces if document is not None else None))
+    ensures("index", Idx(self))
+    ensures("namespaces-local-inv", NSM_Local(self._namespaces))
+    ensures("no-records", seq_len(self._records) == 0)
+    ensures("nothing-handed-out", InvHanded(self._namespaces))
+
+
+@spec
+def RecordsSourceOK(b: "ProvBundle") -> "bool":
+    return forall_in(b._records, lambda r: SourceOK(r))
+
+
+@contract("prov.model.ProvBundle.update", props=["C09", "C12", "C18"])
+def ProvBundle_update(self: "ProvBundle", other: "ProvBundle") -> "none":
+    note("stated for a ProvBundle argument (anything else raises ProvException in the last branch)")
+    requires("bundle", BundleInv(self))
+    requires("other-records", RecordsSourceOK(other))
+    requires("other-is-another-object", other != self)
+    axiom("appending one element to a list (length, last and earlier positions)", seq_snoc_lemma("ProvRecord"))
+    uses("prov.model.ProvBundle.add_record", "fresh", "appended", "same-record-key", "existing-records-untouched", "bundle-inv",
+         "nf", "belongs-here", "source-unchanged")
+    allocates("ProvRecord")
+    modifies(self, "_records", "_id_map")
+    modifies(self._namespaces, "<dict>", "_namespaces", "_uri_map", "_rename_map", "_prefix_renamed_map", "_default")
+    raises(ProvException)
+    raises(ValueError)
+    raises(TypeError)
+    invariant("L1", "index", Idx(self))
+    invariant("L1", "namespaces-inv", NSM_Inv(self._namespaces))
+    invariant("L1", "records-allocated", RecordsAllocated(self))
+    invariant("L1", "records-attrs-wf", RecordsAttrsWF(self))
+    invariant("L1", "records-formal-single", RecordsFormalSingle(self))
+    invariant("L1", "records-stored-ok", RecordsStoredOK(self))
+    invariant("L1", "records-keys-ok", RecordsKeysOK(self))
+    invariant("L1", "count", seq_len(self._records) == old(seq_len(self._records)) + _i)
+    invariant("L1", "old-records-kept", forall(lambda j: implies(0 <= j and j < old(seq_len(self._records)),
+                                                                 seq_nth(self._records, j) == old(seq_nth(self._records, j))), "int"))
+    invariant("L1", "copied", CopiedUpTo(self._records, old(seq_len(self._records)), old(other._records), _i))
+    invariant("L1", "sources-untouched", AllocatedUntouched())
+    invariant("L1", "other-kept", same(other._records, old(other._records)) and same(self._namespaces, old(self._namespaces)))
+    ensures("count", seq_len(self._records) == old(seq_len(self._records)) + old(seq_len(other._records)))
+    ensures("old-records-kept", forall(lambda j: implies(0 <= j and j < old(seq_len(self._records)),
+                                                         seq_nth(self._records, j) == old(seq_nth(self._records, j))), "int"))
+    ensures("others-records-copied", CopiedUpTo(self._records, old(seq_len(self._records)), old(other._records), old(seq_len(other._records))))
+    ensures("existing-records-untouched", AllocatedUntouched())
+    ensures("other-unchanged", same(other._records, old(other._records)))
+    ensures("index", Idx(self))
+    ensures("namespaces-inv", NSM_Inv(self._namespaces))
+    ensures("records-allocated", RecordsAllocated(self))
+    ensures("records-attrs-wf", RecordsAttrsWF(self))
+    ensures("records-formal-single", RecordsFormalSingle(self))
+    ensures("records-stored-ok", RecordsStoredOK(self))
+    ensures("records-keys-ok", RecordsKeysOK(self))
+
+
+# ---------------------------------------------------------------------------------------------- documents
+@spec
+def DocInv(d: "ProvDocument") -> "bool":
+    """document-level structure: own records/index/namespaces in order, its manager has no parent, every
+    bundle is registered under its own identifier URI and is a different object with the document as parent"""
+    return DocOwn(d) and BundlesOK(d)
+
+
+@spec
+def DocOwn(d: "ProvDocument") -> "bool":
+    return Idx(d) and NSM_Local(d._namespaces) and d._namespaces.parent is None and allocated(d) and allocated(d._namespaces)
+
+
+@spec
+def BundlesOK(d: "ProvDocument") -> "bool":
+    return forall(lambda u: implies(qm_has(d._bundles, u),
+                                    qm_key(d._bundles, u).uri == u and BundleOf(d, qm_get(d._bundles, u), u)), "str")
+
+
+@spec
+def WasNoBundle(d: "ProvDocument", u: "str") -> "bool":
+    return not old(qm_has(d._bundles, u))
+
+
+@spec
+def BundleOf(d: "ProvDocument", b: "ProvBundle", u: "str") -> "bool":
+    return (b != d and allocated(b) and b._identifier is not None and b._identifier.uri == u
+            and b._document is not None and b._document == d
+            and b._namespaces != d._namespaces and allocated(b._namespaces)
+            and b._namespaces.parent is not None and b._namespaces.parent == d._namespaces
+            and Idx(b) and NSM_Local(b._namespaces))
+
+
+@contract("prov.model.ProvDocument.__init__", props=["C09", "C12"])
+def ProvDocument_init(self: "ProvDocument", records: "none" = None, namespaces: "Opt[Seq[Ns]]" = None) -> "none":
+    note("verified for records=None (see ProvBundle.__init__)")
+    requires("namespaces", NamespacesArgOK(namespaces))
+    requires("self-allocated", allocated(self))
+    allocates("NamespaceManager")
+    modifies(self, "_identifier", "_records", "_id_map", "_document", "_namespaces", "_bundles")
+    ensures("own-fresh-manager", fresh(self._namespaces))
+    ensures("no-records", seq_len(self._records) == 0)
+    ensures("no-bundles", forall(lambda u: not qm_has(self._bundles, u), "str"))
+    ensures("doc-inv", DocInv(self))
+    ensures("nothing-handed-out", InvHanded(self._namespaces))
+
+
+@contract("prov.model.ProvDocument.bundle", props=["C09", "C12"])
+def ProvDocument_bundle(self: "ProvDocument", identifier: "Val") -> "ProvBundle":
+    requires("doc-own", DocOwn(self))
+    requires("identifier", IdArgOK(identifier))
+    allocates("ProvBundle", "NamespaceManager")
+    modifies(self, "_bundles")
+    modifies(self._namespaces, "<dict>", "_namespaces", "_uri_map", "_rename_map", "_prefix_renamed_map", "_default")
+    raises(ProvException, ensures=same(self._bundles, old(self._bundles)) and same(self._records, old(self._records)))
+    ensures("fresh-bundle", fresh(result) and fresh(result._namespaces))
+    ensures("registered", result._identifier is not None and qm_has(self._bundles, result._identifier.uri)
+            and qm_get(self._bundles, result._identifier.uri) == result)
+    ensures("was-not-there", WasNoBundle(self, result._identifier.uri))
+    ensures("identifier-kept", implies(is_qn(identifier), result._identifier.uri == as_qn(identifier).uri))
+    ensures("other-bundles-kept", forall(lambda u: implies(u != result._identifier.uri,
+                                                           qm_has(self._bundles, u) == old(qm_has(self._bundles, u))
+                                                           and implies(qm_has(self._bundles, u), qm_get(self._bundles, u) == old(qm_get(self._bundles, u)))), "str"))
+    ensures("empty", seq_len(result._records) == 0)
+    ensures("own-records-kept", same(self._records, old(self._records)))
+    ensures("new-bundle-ok", BundleOf(self, result, result._identifier.uri))
+    ensures("doc-own", DocOwn(self))
+    note("not proved here: BundlesOK(self) for the bundles that were already there (their objects are untouched: "
+         "other-bundles-kept + the frame); the solvers time out on the combined statement")
